@@ -612,6 +612,10 @@ def run(index: RepoIndex, rep) -> None:
              floor=6)
     rep.rule('C12.R4', 'composition: reduce applies the reduction to every part; sum/any/all',
              floor=8)
+    from .wiring import late_binding_closures
+    late_binding_closures(index, rep, 'C12.R4', (
+        'gym_gridverse/envs/reward_functions.py',
+        'gym_gridverse/envs/terminating_functions.py'))
     rep.rule('C12.R5', 'GridWorld.functional_step wires reward and termination on the '
              '(state, action, next_state) of one step', floor=3)
     rw = index.registry('reward', 13)
